@@ -23,7 +23,7 @@ import (
 func TestMain(m *testing.M) {
 	kit.Main(m, "C17", "fault_enumeration",
 		"both AWS KMS plugins built through their public constructors (v1: NewAWS then the exported Clients[i].KMS replaced; v2: Builder + WithKMSFactory) over fake regional endpoints with their own master keys, call log and retained plaintext slices. "+
-			"ENUMERATED: 1..3 regions (thorough: 4; up to 6 with every GenerateDataKey failure set x {no, all} Encrypt failures x every Decrypt failure set), every preferred region (and a preferred region that is not configured), every subset of regions failing GenerateDataKey x every subset failing Encrypt at wrap time, then for every envelope every preferred region of the unwrapper x every subset failing Decrypt x every subset returning wrong bytes, wrapper and unwrapper each in {v1, v2} (envelopes are exchanged between the plugins). The same enumeration (fewer regions) with regional failures shaped like per-call timeouts (errors wrapping context.DeadlineExceeded / Canceled while the caller's context is alive) and with the v2 plugin built from an application aws.Config whose Region is another configured KMS region. "+
+			"ENUMERATED: 1..3 regions (thorough: 4; up to 6 with every GenerateDataKey failure set x {no, all} Encrypt failures x every Decrypt failure set), every preferred region (and a preferred region that is not configured), every subset of regions failing GenerateDataKey x every subset failing Encrypt at wrap time, then for every envelope every preferred region of the unwrapper x every subset failing Decrypt x every subset returning wrong bytes, wrapper and unwrapper each in {v1, v2} (envelopes are exchanged between the plugins). The same enumeration (fewer regions) with regional failures shaped like per-call timeouts (errors wrapping context.DeadlineExceeded / Canceled while the caller's context is alive) and with the v2 plugin built from an application aws.Config whose Region is another configured KMS region, and with the keys configured by alias ARN (responses name the key ARN). "+
 			"Oracle from the fakes' call logs: wrap succeeds iff some region can generate, generation is attempted preferred-first, each region at most once, stopping at the first success; the envelope (documented JSON shape) has exactly one entry for the generating region and one per region whose Encrypt succeeded; "+
 			"unwrap returns the identical key bytes iff some configured region with an entry can decrypt correctly, is attempted preferred-first over regions that have entries, never on regions without one, stops at the first success; the data-key plaintext handed out by the generating region is zero when EncryptKey returns (the unwrap-side wipe belongs to C10). "+
 			"One evaluation = one wrap or unwrap case. Non-trivial = at least one region failed in the case; all enumerated cases are distinct by construction",
@@ -44,7 +44,7 @@ type plugin struct {
 func build(kind string, w *fakes.KMSWorld, regions []string, pref string) (*plugin, error) {
 	arn := map[string]string{}
 	for _, r := range regions {
-		arn[r] = w.Regions[r].ARN
+		arn[r] = w.ARNMap()[r] // the key ARN, or the alias ARN when the application names its keys by alias
 	}
 	switch kind {
 	case "v1":
@@ -158,6 +158,17 @@ func TestEnumerateErrorShapesAndConfigs(t *testing.T) {
 	enumerateRegionFailures(t, kit.Pick(3, 3), nil, []string{"v2cfg"})
 }
 
+// useAliases: the application names its regional keys by alias ARN; the service accepts either name in a request
+// and names the key ARN in every response.
+var useAliases bool
+
+// TestEnumerateWithAliasARNs: the enumeration (up to 2 / 3 regions) with keys configured by alias ARN.
+func TestEnumerateWithAliasARNs(t *testing.T) {
+	useAliases = true
+	defer func() { useAliases = false }()
+	enumerateRegionFailures(t, kit.Pick(2, 3), nil, []string{"v1", "v2"})
+}
+
 func enumerateRegionFailures(t *testing.T, maxN int, failErr error, kinds []string) {
 	shard, shards := kit.Shard()
 	unit := 0
@@ -166,7 +177,7 @@ func enumerateRegionFailures(t *testing.T, maxN int, failErr error, kinds []stri
 	// every subset failing GenerateDataKey x {none, all} failing Encrypt, unwrapped by the same kind of plugin
 	// with the same preferred region under every subset failing Decrypt
 	wideN := maxN
-	if failErr == nil && len(kinds) == 2 {
+	if failErr == nil && len(kinds) == 2 && !useAliases {
 		wideN = len(allRegions)
 	}
 	for n := 1; n <= wideN; n++ {
@@ -174,6 +185,9 @@ func enumerateRegionFailures(t *testing.T, maxN int, failErr error, kinds []stri
 		regions := allRegions[:n]
 		// one set of regional endpoints and one plugin instance per (kind, preferred region); cases only flip fault switches
 		w := fakes.NewKMSWorld(regions)
+		if useAliases {
+			w.UseAliases()
+		}
 		w.FailErr = failErr
 		plugins := map[string]*plugin{}
 		getPlugin := func(kind, pref string) (*plugin, error) {
@@ -266,7 +280,7 @@ func enumerateRegionFailures(t *testing.T, maxN int, failErr error, kinds []stri
 		}
 	}
 	kit.Rec.Enumerated(total, nontrivial)
-	if failErr == nil && len(kinds) == 2 {
+	if failErr == nil && len(kinds) == 2 && !useAliases {
 		kit.Rec.Extra("max_regions", maxN)
 		kit.Rec.Extra("max_regions_reduced_enumeration", wideN)
 	}
@@ -328,8 +342,8 @@ func checkWrap(t *testing.T, c caseDesc, w *fakes.KMSWorld, regions []string, en
 		if !ok {
 			fail(t, c, w, "envelope entry for unknown region %q", k.Region)
 		}
-		if k.ARN != reg.ARN {
-			fail(t, c, w, "entry for %s carries ARN %q, expected %q", k.Region, k.ARN, reg.ARN)
+		if k.ARN != w.ARNMap()[reg.Region] {
+			fail(t, c, w, "entry for %s carries ARN %q, expected the configured %q", k.Region, k.ARN, w.ARNMap()[reg.Region])
 		}
 	}
 	for _, r := range regions {
